@@ -48,7 +48,10 @@ where
         }
         Ok(None) => {}
         Err(e) => {
-            if src.seen_doc_end() && !matches!(e.without_snippet(), Error::Budget { .. }) {
+            if src.seen_doc_end()
+                && !matches!(e.without_snippet(), Error::Budget { .. })
+                && !e.is_content_after_unterminated_document()
+            {
                 // Trailing garbage after a proper document end marker is ignored.
             } else {
                 return Err(wrap_err(e));
